@@ -19,7 +19,7 @@ import (
 func init() {
 	fw.Register(&fw.Check{
 		ID: "C11", Level: "model_checking",
-		Rule:   "accepted documents = closed selections of 1..2 (quick) / 1..3 (thorough) pool blocks; each x every applicable fault (duplicate TYPE/ENUM/MACRO/SERVER/TAG at every top-level position, same method+path twice, same URL path twice, similar paths, second singleton child of each kind, each required parameter omitted, reference to an undefined type / enum / macro / tag in every reference position) x delivery {written directly, through a PASTE of a macro holding the faulty directive, through an INCLUDE of a file holding it}; oracle: rejected, and the diagnostic lies inside the source span of a directive taking part in the fault; non-trivial = every injected fault; distinct = distinct faulty projects ; E-REFCAT (see C04): on every fixture and pool selection, a duplicate server / type / enum / tag name or a duplicate interaction the reference compiler sees after macro expansion => rejected",
+		Rule:   "accepted documents = closed selections of 1..2 (quick) / 1..3 (thorough) pool blocks; each x every applicable fault (duplicate TYPE/ENUM/MACRO/SERVER/TAG at every top-level position, same method+path twice, same URL path twice, similar paths, second singleton child of each kind, each required parameter omitted, reference to an undefined type / enum / macro / tag in every reference position) x delivery {written directly, through a PASTE of a macro holding the faulty directive, through an INCLUDE of a file holding it}; oracle: rejected, and the diagnostic lies inside the source span of a directive taking part in the fault; non-trivial = every injected fault; distinct = distinct faulty projects ; E-REFCAT (see C04): on every fixture and pool selection, a duplicate server / type / enum / tag name or a duplicate interaction the reference compiler sees after macro expansion => rejected ; duplicate declarations for ALL names of length 1..3 (thorough 4) over {a _ - 1 A . % ~ é} in ten name-bearing kinds (TYPE ENUM MACRO SERVER TAG, method path bare and quoted, URL, URL vs method, JSON-RPC method): the single declaration accepted => the double one rejected inside one of the two declarations; late Path faults (parameter of an object type / undefined type)",
 		Assume: []string{"for duplicates either occurrence is an accepted location; for PASTE / INCLUDE delivery the PASTE / INCLUDE line is accepted as well"},
 		Run:    runC11, QuickCap: 8 * time.Minute, ThoroughCap: 40 * time.Minute,
 	})
